@@ -3,9 +3,11 @@
 Transcribed, branch by branch, from
 * `jedi/inference/names.py`: `_ActualTreeParamName.get_kind`, `BaseTreeParamName.to_string /
   get_public_name`, `_ParamMixin._kind_string`
-* `jedi/inference/signature.py`: `_SignatureMixin.to_string`, `TreeSignature.get_param_names`
+* `jedi/inference/signature.py`: `_SignatureMixin.to_string`, `TreeSignature.get_param_names`,
+  `_remove_bound_param`
 * `jedi/inference/star_args.py`: `process_params` for a body that forwards neither `*args` nor
-  `**kwargs` (no callables found)
+  `**kwargs` (no callables found), and for a body that forwards `**kwargs` (only) to callees that
+  forward nothing themselves (`_remove_given_params`, the `star_count=2` recursion)
 * `jedi/api/helpers.py`: `_iter_arguments`, `CallDetails.calculate_index /
   count_positional_arguments / iter_used_keyword_arguments`
 * `jedi/api/classes.py`: `BaseName.docstring` (assembly of signature line(s) and raw text)
@@ -115,9 +117,72 @@ def processParams (ps : List PName) : List PName :=
   let (ys, a, ks, k, used) := ppScan ps
   ys ++ a.toList ++ ppKwOnly ks used ++ k.toList
 
+/-- `_remove_bound_param(param_names)`: `self`/`cls` is bound to the first parameter, except when
+that parameter is `*args` (which swallows it and stays).  The empty list takes the
+`param_names[1:]` branch (`param_names and …` is falsy). -/
+def removeBoundParam : List PName → List PName
+  | [] => []
+  | p :: rest => if p.kind = .varPos then p :: rest else rest
+
 /-- `TreeSignature.get_param_names(resolve_stars=True)` -/
 def signatureParams (bound : Bool) (ps : List PName) : List PName :=
-  if bound then (processParams ps).drop 1 else processParams ps
+  if bound then removeBoundParam (processParams ps) else processParams ps
+
+/-! ## `process_params` when `**kwargs` is forwarded (one level) -/
+
+/-- `maybe_positional_argument()` / `maybe_keyword_argument()` (stars included) -/
+def maybePositional (p : PName) : Bool :=
+  decide (p.kind = .posOnly) || decide (p.kind = .posOrKw) || decide (p.kind = .varPos)
+
+def maybeKeyword (p : PName) : Bool :=
+  decide (p.kind = .kwOnly) || decide (p.kind = .posOrKw) || decide (p.kind = .varKw)
+
+/-- `_remove_given_params(arguments, param_names)`: `count` = number of positional arguments the
+forwarding call `g(e1, …, k1=…, **kwargs)` gives itself, `keys` = the keyword names it gives -/
+def removeGiven : Nat → List Str → List PName → List PName
+  | _, _, [] => []
+  | count, keys, p :: rest =>
+    if count ≠ 0 && maybePositional p then removeGiven (count - 1) keys rest
+    else if keys.contains p.name && maybeKeyword p then removeGiven count keys rest
+    else p :: removeGiven count keys rest
+
+/-- first loop of `process_params(param_names, star_count=2)`: `*args` and positional-only
+names are skipped (`star_count & 1` is 0), positional-or-keyword names become
+`ParamNameFixedKind(p, KEYWORD_ONLY)`.  Result: (kw_only_names, original_kwarg_name) -/
+def ppScan2 : List PName → (List PName × Option PName)
+  | [] => ([], none)
+  | p :: rest =>
+    let (ks, k) := ppScan2 rest
+    match p.kind with
+    | .varPos => (ks, k)
+    | .varKw => (ks, some (k.getD p))
+    | .kwOnly => (p :: ks, k)
+    | .posOnly => (ks, k)
+    | .posOrKw => ({ p with kind := .kwOnly } :: ks, k)
+
+/-- `process_params(param_names, star_count=2)` for a callee whose own body forwards nothing:
+the keyword-only names (`used_names` starts empty), then its `**kwargs` -/
+def processParams2 (ps : List PName) : List PName :=
+  let (ks, k) := ppScan2 ps
+  ppKwOnly ks [] ++ k.toList
+
+/-- `process_params(param_names)` (star_count 3) when `*args` is forwarded nowhere and the
+`**kwargs` parameter is forwarded to calls whose callees show the parameter lists `callees`
+(each = `_remove_given_params(arguments, signature.get_param_names(resolve_stars=False))`, in the
+order `_iter_nodes_for_param` finds the calls; every callee has exactly one signature and forwards
+nothing itself).  With `callees = []` this is `processParams`. -/
+def processParamsKw (ps : List PName) (callees : List (List PName)) : List PName :=
+  let (ys, a, ks, k, used) := ppScan ps
+  let inner := callees.flatMap processParams2
+  let kwargNames := inner.filter fun p => decide (p.kind = .varKw)
+  let kwOnly := inner.filter fun p => decide (p.kind = .kwOnly)
+  ys ++ a.toList ++ ppKwOnly (ks ++ kwOnly) used ++
+    (if callees.isEmpty then k.toList else kwargNames.head?.toList)
+
+/-- what a callee hands to the forwarding machinery: `signature.get_param_names(resolve_stars=False)`
+(bound ⇒ `_remove_bound_param`, no `process_params`) through `_remove_given_params` -/
+def calleeParams (bound : Bool) (count : Nat) (keys : List Str) (ps : List PName) : List PName :=
+  removeGiven count keys (if bound then removeBoundParam ps else ps)
 
 /-! ## `to_string` -/
 
@@ -486,6 +551,45 @@ def pyBind (s : Sig) (prev : List CArg) (cur : CArg) : Option Nat :=
       match optIdx (s.ko.map P.name) n with
       | some j => some (nfix + nvp + j)
       | none => if s.vk.isSome then some (nfix + nvp + s.ko.length) else none
+
+/-- the keyword `n` of a call with `npos` positional arguments finds a place: a positional-or-keyword
+parameter not filled positionally, a keyword-only parameter, or `**vk` -/
+def pyKwOk (s : Sig) (npos : Nat) (n : Str) : Bool :=
+  match optIdx (s.pk.map P.name) n with
+  | some j => !decide (s.po.length + j < npos)
+  | none => (s.ko.map P.name).contains n || s.vk.isSome
+
+/-- CPython accepts the call `f(e1, …, e_npos, k1=…, …)` (keywords `kws` distinct): no
+`TypeError` from argument binding.  Positional arguments must fit (`*vp` takes the overflow), every
+keyword must name a not yet filled positional-or-keyword or a keyword-only parameter or go to
+`**vk`, and every parameter without a default must have been given. -/
+def pyAccepts (s : Sig) (npos : Nat) (kws : List Str) : Bool :=
+  (decide (npos ≤ s.po.length + s.pk.length) || s.vp.isSome) &&
+  kws.all (pyKwOk s npos) &&
+  (s.po.drop npos).all (fun p => p.dflt.isSome) &&
+  (s.pk.drop (npos - s.po.length)).all (fun p => p.dflt.isSome || kws.contains p.name) &&
+  s.ko.all (fun p => p.dflt.isSome || kws.contains p.name)
+
+/-- the signature a pure `**kwargs` pass-through wrapper `def f(**kwargs): return g(**kwargs)` of
+`g` (parameter list `s`) should show: `g`'s keyword-capable parameters, keyword-only -/
+def kwForwarded (s : Sig) : Sig := ⟨[], [], none, s.pk ++ s.ko, s.vk⟩
+
+/-- the call `f(e1, …, e_npos, k1=…, …)` of that wrapper runs without `TypeError`: `f` itself takes
+no positional argument, then `g(k1=…, …)` must be accepted -/
+def pyRunsKwWrapper (s : Sig) (npos : Nat) (kws : List Str) : Bool :=
+  decide (npos = 0) && pyAccepts s 0 kws
+
+/-! ## Python: the signature of a bound method -/
+
+/-- `inspect._signature_bound_method`: the first positional parameter is consumed by
+`self`/`cls`; a leading `*args` absorbs it and stays; `none` = `ValueError('invalid method
+signature')` (no parameter at all, or the first one is keyword-only / `**kwargs`: every call through
+the instance raises `TypeError`). -/
+def pyBound (s : Sig) : Option Sig :=
+  match s.po, s.pk with
+  | _ :: po, _ => some { s with po := po }
+  | [], _ :: pk => some { s with pk := pk }
+  | [], [] => if s.vp.isSome then some s else none
 
 /-! ## `BaseName.docstring` -/
 
